@@ -447,6 +447,65 @@ def classify_pool(case):
 
 
 # ---------------------------------------------------------------------------
+# 3b. a whole condition missing: the remaining entries form a complete, smaller RDM, so "what it
+# returns on the RDMs with those entries deleted" is the library's own answer for that smaller stack
+# -- including its scale
+
+@st.composite
+def embedded_case(draw):
+    n = draw(st.integers(3, 6))
+    k = draw(st.integers(1, 4))
+    p = ref.n_pairs(n)
+    rows = [draw(gen.vector(p, kind='pos')) for _ in range(k)]
+    for r in rows:
+        if max(r) - min(r) < 0.25:
+            r[0] += 1.0
+    fn = draw(st.sampled_from(['inference_util', 'pooling']))
+    return dict(n=n, rows=rows, at=draw(st.integers(0, n)), fn=fn,
+                method=draw(st.sampled_from(POOL_METHODS)),
+                extra=draw(st.integers(1, 2)))
+
+
+def check_embedded(case):
+    n, method, fn = case['n'], case['method'], case['fn']
+    small = np.array(case['rows'], dtype=float)
+    m = n + case['extra']
+    # positions of the original conditions among the m conditions of the larger RDM
+    gap = list(range(case['at'], case['at'] + case['extra']))
+    pos = [c for c in range(m) if c not in gap]
+    big = np.full((len(small), ref.n_pairs(m)), np.nan)
+    idx = {pr: e for e, pr in enumerate(ref.pairs(m))}
+    for e, (i, j) in enumerate(ref.pairs(n)):
+        big[:, idx[(pos[i], pos[j])]] = small[:, e]
+    keep = ~np.isnan(big[0])
+    sig = 'pool-embedded:%s:%s' % (fn, method)
+
+    def pool(arr):
+        rd = RDMs(arr.copy())
+        if fn == 'pooling':
+            out = lib(pool_pooling, rd, method=method, sigma_k=None, on_error='violation',
+                      sig=sig + ':raises')
+        else:
+            out = lib(pool_inference, rd, method=method, on_error='violation', sig=sig + ':raises')
+        return np.asarray(out.get_vectors(), dtype=float)[0]
+    p_small, p_big = pool(small), pool(big)
+    require(np.array_equal(~np.isnan(p_big), keep), '%s.pool_rdm(%s): pooled RDM is NaN at %s, data '
+            'are missing at %s' % (fn, method, np.where(np.isnan(p_big))[0].tolist(),
+                                   np.where(~keep)[0].tolist()), sig + ':nan-pattern')
+    cg = fn == 'pooling' and method in WHITENED
+    scale = float(np.max(np.abs(p_small))) or 1.0
+    require_close(p_big[keep], p_small, '%s.pool_rdm(%s) of %d RDMs over %d conditions of which %d '
+                  'are missing entirely vs the pooled RDM of the %d remaining conditions' % (
+                      fn, method, len(small), m, case['extra'], n), sig,
+                  rtol=TOL_CG if cg else 1e-9, atol=(TOL_CG if cg else 1e-9) * scale)
+
+
+def classify_embedded(case):
+    return ['method:' + case['method'], 'fn:' + case['fn'], 'n=%d' % case['n'],
+            'missing-conditions=%d' % case['extra'], 'n_rdm=%d' % len(case['rows'])], len(case['rows']) >= 2
+
+
+# ---------------------------------------------------------------------------
 # 4. noise ceiling with a common mask
 
 @st.composite
@@ -924,7 +983,8 @@ def proportional_case(draw):
     equal = draw(st.sampled_from([False, False, False, True]))
     if equal:
         scales = [scales[0]] * k
-    return dict(n=n, base=base, subs=subs, scales=scales,
+    # the whole stack in small or large units (volt, tesla, raw scanner units): exact factor 2^e
+    return dict(n=n, base=base, subs=subs, scales=scales, unit=draw(st.sampled_from([0, 0, 0, -40, -27, 30])),
                 method=draw(st.sampled_from(RESCALE_METHODS)),
                 via=draw(st.sampled_from(['from_partials', 'direct'])))
 
@@ -941,7 +1001,8 @@ def spread(arr):
 
 def check_proportional(case):
     n, method = case['n'], case['method']
-    rows = [[c * b for b in case['base']] for c in case['scales']]
+    u = 2.0 ** case.get('unit', 0)
+    rows = [[c * b * u for b in case['base']] for c in case['scales']]
     rd, d = partial_stack(rows, n, case['subs'], case['via'])
     sig = 'rescale-proportional:' + method
     before = spread(d)
@@ -983,6 +1044,9 @@ SUBCHECKS = [
     SubCheck('pool_common', pool_case(), check_pool, classify_pool, quick=400,
              doc='both pool_rdm implementations: NaN pattern kept, values == pooling of the '
                  'remaining entries (up to the invariance of the measure)'),
+    SubCheck('pool_missing_condition', embedded_case(), check_embedded, classify_embedded, quick=300,
+             doc='both pool_rdm implementations on RDMs in which whole conditions are missing == the '
+                 'pooled RDM of the smaller complete RDMs, scale included'),
     SubCheck('ceiling_common', ceiling_case(), check_ceiling, classify_ceiling, quick=300,
              doc='boot_noise_ceiling with a common mask == own leave-one-group-out on the remaining '
                  'entries'),
